@@ -11,9 +11,8 @@ Require Import Cirbo.Proofs.DictFacts Cirbo.Proofs.BuilderFacts Cirbo.Proofs.Ari
   Cirbo.Proofs.ArithSumCells Cirbo.Proofs.ArithSumPow2Facts Cirbo.Proofs.ArithSumStruct
   Cirbo.Proofs.ArithMulFacts Cirbo.Proofs.ArithMulDiag
   Cirbo.Proofs.ArithMulDadda Cirbo.Proofs.ArithMulPow2 Cirbo.Proofs.ArithMulKara Cirbo.Proofs.ArithMulWallace
-  Cirbo.Proofs.ArithSquareFacts Cirbo.Proofs.ArithMulLen Cirbo.Proofs.ArithMulStruct
-  Cirbo.Proofs.ArithMulStructA Cirbo.Proofs.ArithMulStructB Cirbo.Proofs.ArithMulStructC
-  Cirbo.Proofs.ArithMulStructD Cirbo.Proofs.ArithMulStructE Cirbo.Proofs.ArithMulStructF.
+  Cirbo.Proofs.ArithSquareFacts Cirbo.Proofs.ArithMulLen Cirbo.Proofs.ArithMulCount Cirbo.Proofs.ArithMulStruct
+  Cirbo.Proofs.ArithMulStructA Cirbo.Proofs.ArithMulStructB Cirbo.Proofs.ArithMulStructC.
 Open Scope Z_scope.
 
 Definition product_clause (c c' : circuit) (xs ys rs : list label) (be : bool) : Prop :=
@@ -40,9 +39,11 @@ Proof. intros X V asg xv Hx. apply V; eapply bvals_ext; eassumption. Qed.
 Theorem add_mul_final fresh xs ys be s rs s' :
   run fresh (add_mul xs ys be) s = Ok (rs, s') ->
   ext (bc s) (bc s') /\ inputs (bc s') = inputs (bc s) /\ outputs (bc s') = outputs (bc s) /\
+  length rs = mul_len (length xs) (length ys) /\
   product_clause (bc s) (bc s') xs ys rs be.
 Proof.
-  intros H. apply add_mul_correct in H as (X & I & O & V). repeat split; auto.
+  intros H. pose proof (add_mul_length _ _ _ _ _ _ _ H) as L.
+  apply add_mul_correct in H as (X & I & O & V). repeat split; auto.
   apply product_clause_intro; [exact X|]. apply V, ext_refl.
 Qed.
 
@@ -145,17 +146,13 @@ Proof.
   split; [apply negb_true_iff, H2|apply negb_true_iff, H3].
 Qed.
 
-Theorem mul_struct_upto8 : forallb (fun f => forallb (mul_struct_ok f) (pairs_upto 8)) all_mul_fns = true.
+Theorem mul_struct_upto6 : forallb (fun f => forallb (mul_struct_ok f) (pairs_upto 6)) all_mul_fns = true.
 Proof.
   unfold all_mul_fns. cbn [forallb].
-  pose proof mul_struct_karatsuba_upto8 as HK. apply andb_true_iff in HK as (HK1 & HK2).
-  rewrite mul_struct_default_upto8, mul_struct_alter_upto8, mul_struct_dadda_upto8, mul_struct_wallace_upto8,
-    mul_struct_pow2_m1_upto8, HK1, HK2. reflexivity.
+  pose proof mul_struct_karatsuba_upto6 as HK. apply andb_true_iff in HK as (HK1 & HK2).
+  rewrite mul_struct_default_upto6, mul_struct_alter_upto6, mul_struct_dadda_upto6, mul_struct_wallace_upto6,
+    mul_struct_pow2_m1_upto6, HK1, HK2. reflexivity.
 Qed.
-
-Theorem karatsuba_recursion_returns :
-  mul_struct_ok FKaratsubaEff (18, 18)%nat = true /\ mul_struct_ok FKaratsuba (20, 20)%nat = true.
-Proof. split; [exact mul_struct_karatsuba_eff_18|exact mul_struct_karatsuba_20]. Qed.
 
 Theorem square_struct_ok_meaning t n : square_struct_ok t n = true ->
   exists c rs s',
@@ -173,9 +170,9 @@ Theorem result_length_formulas :
   (forall n, sq_len n = if (n =? 1)%nat then 1%nat else (2 * n)%nat).
 Proof. split; reflexivity. Qed.
 
-Theorem square_struct_upto12 :
-  forallb (square_struct_ok SDefault) (seq 1 12) && forallb (square_struct_ok SPow2m1) (seq 1 12) = true.
-Proof. exact ArithMulStructC.square_struct_upto12. Qed.
+Theorem square_struct_upto8 :
+  forallb (square_struct_ok SDefault) (seq 1 8) && forallb (square_struct_ok SPow2m1) (seq 1 8) = true.
+Proof. exact ArithMulStructC.square_struct_upto8. Qed.
 
 Theorem last_step_final fresh xs ys be s rs s' :
   run fresh (last_step_sum_with_new_powers_sum xs ys be) s = Ok (rs, s') ->
